@@ -1,10 +1,129 @@
 (* Properties_C05.v -- C05 (proved part): capacity arithmetic of the fixed-size buffers that input
-   can reach.  Statements only; every proof is `exact <lemma>`; Print Assumptions under each. *)
+   can reach, on the models of CapDefs.v (checked reads and writes: an access outside a buffer is a
+   distinct result, never a default value).  Statements only; every proof is `exact <lemma>`;
+   Print Assumptions under each.  What is NOT proved here -- that no command stream crashes the real
+   process -- is explored under sanitizers by tools/props/c05.py and labelled as exploration. *)
 From Coq Require Import List NArith ZArith.
 From NV Require Import Bytes GenConsts GenExCmds CapDefs CapProps.
 Import ListNotations.
+
+(* ex_loc, ex_cmd and ex_arg, each writing into a fresh buffer of EXLEN bytes, started at any
+   position i of any byte string ln shorter than EXLEN (no assumption on its content), for any
+   command name (c0, c1) handed to ex_arg: the result is a value -- so no byte was written at an
+   index >= EXLEN, no byte was read beyond the terminator of ln and the loops ended --, the read
+   position stays inside ln, and the bytes written (terminator included) number at most the bytes
+   consumed plus one, hence at most EXLEN *)
+Theorem C05_ex_parts_fit : forall ln i c0 c1, (Z.of_nat (length ln) < EXLEN)%Z -> (i <= length ln)%nat ->
+  (exists i' w, ex_loc ln i (newbuf excap) = Ok (i', w) /\ (i <= i')%nat /\ (i' <= length ln)%nat /\
+                (wlen w <= i' - i + 1)%nat /\ (Z.of_nat (wlen w) <= EXLEN)%Z) /\
+  (exists i' w, ex_cmd ln i (newbuf excap) = Ok (i', w) /\ (i <= i')%nat /\ (i' <= length ln)%nat /\
+                (wlen w <= i' - i + 1)%nat /\ (wlen w <= 18)%nat /\ (Z.of_nat (wlen w) <= EXLEN)%Z) /\
+  (exists i' w, ex_arg ln i (newbuf excap) c0 c1 = Ok (i', w) /\ (i <= i')%nat /\ (i' <= length ln)%nat /\
+                (wlen w <= i' - i + 1)%nat /\ (Z.of_nat (wlen w) <= EXLEN)%Z).
+Proof. exact ex_parts_fit. Qed.
+Print Assumptions C05_ex_parts_fit.
 
 (* ex_exec rejects, without parsing, a command line of EXLEN bytes or more *)
 Theorem C05_ex_exec_guard : forall ln, (EXLEN <= Z.of_nat (cstrlen ln))%Z -> ex_exec ln = TooLong.
 Proof. exact ex_exec_guard. Qed.
 Print Assumptions C05_ex_exec_guard.
+
+(* the whole parse loop of ex_exec (ex_loc, ex_cmd, ex_idx, ex_arg, the scan of ex_txt, repeated
+   until the end of the line) on any C string: rejected as too long, or parsed to the end with no
+   out-of-bounds access, and the loop terminates (the fuel, length + 1 iterations, is not used up) *)
+Theorem C05_ex_exec_safe : forall ln, nonul ln ->
+  match ex_exec ln with
+  | TooLong => (EXLEN <= Z.of_nat (length ln))%Z
+  | Parsed r => (Z.of_nat (length ln) < EXLEN)%Z /\ exists l, r = Ok l
+  end.
+Proof. exact ex_exec_safe. Qed.
+Print Assumptions C05_ex_exec_safe.
+
+(* term.c: for every sequence of term_push (any non-negative length), term_read (any outcome of the
+   one-byte refill) and term_cmd calls from the initial state, no store lands outside ibuf[IBUFSZ],
+   no load outside its filled part, and the counters satisfy 0 <= pos <= cnt <= IBUFSZ *)
+Theorem C05_term_push_bounded : forall ops, Forall op_ok ops ->
+  exists t, t_run t_init ops = Ok t /\ (0 <= ibuf_pos t)%Z /\ (ibuf_pos t <= ibuf_cnt t)%Z /\ (ibuf_cnt t <= IBUFSZ)%Z.
+Proof. exact term_push_bounded. Qed.
+Print Assumptions C05_term_push_bounded.
+
+(* a push adds exactly min(n, room left) bytes *)
+Theorem C05_term_push_clipped : forall t n t', tinv t -> (0 <= n)%Z -> t_step t (TPush n) = Ok t' ->
+  ibuf_cnt t' = (ibuf_cnt t + Z.min n (IBUFSZ - ibuf_cnt t))%Z /\ (ibuf_cnt t' <= IBUFSZ)%Z /\
+  ibuf_pos t' = ibuf_pos t /\ icmd_pos t' = icmd_pos t.
+Proof. exact term_push_clipped. Qed.
+Print Assumptions C05_term_push_clipped.
+
+(* recording into icmd[ICMDSZ] never stores past it, for the same operation sequences *)
+Theorem C05_icmd_bounded : forall ops, Forall op_ok ops ->
+  exists t, t_run t_init ops = Ok t /\ (0 <= icmd_pos t)%Z /\ (icmd_pos t <= ICMDSZ)%Z.
+Proof. exact icmd_bounded. Qed.
+Print Assumptions C05_icmd_bounded.
+
+(* ex_region (as repaired: the address-less path checks xrow): for every address string, every
+   current line xrow, every buffer length len >= 0 and ANY function in place of ex_lineno (any
+   integer, any new position, even a failing one), a region that is not refused satisfies
+   0 <= beg <= end <= len *)
+Theorem C05_region_in_range : forall len, (0 <= len)%Z ->
+  forall (lineno : Z -> bytes -> nat -> res (Z * nat)) loc xrow b e x,
+  ex_region len lineno loc xrow = Ok (ROk b e, x) -> (0 <= b /\ b <= e /\ e <= len)%Z.
+Proof. exact ex_region_range. Qed.
+Print Assumptions C05_region_in_range.
+
+(* ex_region reads the address string only up to its terminator and its loop terminates, provided
+   ex_lineno leaves the position inside the string ... *)
+Theorem C05_region_reads_safe : forall len (lineno : Z -> bytes -> nat -> res (Z * nat)),
+  (forall xrow s i, (i <= length s)%nat ->
+     exists n j, lineno xrow s i = Ok (n, j) /\ (i <= j)%nat /\ (j <= length s)%nat) ->
+  forall loc xrow, exists r, ex_region len lineno loc xrow = Ok r.
+Proof. exact ex_region_total. Qed.
+Print Assumptions C05_region_reads_safe.
+
+(* ... which the model of ex_lineno does, for any mark table that stores nothing under the
+   terminator byte (markidx(0) = -1) and any search that reports a position inside the string *)
+Theorem C05_lineno_stays_inside : forall len mark search, mark 0%N = None ->
+  (forall xrow s i, (i < length s)%nat -> (i <= snd (search xrow s i))%nat /\ (snd (search xrow s i) <= length s)%nat) ->
+  forall xrow s i, (i <= length s)%nat ->
+  exists n j, ex_lineno len mark search xrow s i = Ok (n, j) /\ (i <= j)%nat /\ (j <= length s)%nat.
+Proof. exact ex_lineno_ok. Qed.
+Print Assumptions C05_lineno_stays_inside.
+
+(* ec_set: tok[EXLEN] (cutword) and opt[EXLEN] (the three strcpy calls) hold what an argument
+   shorter than EXLEN can put into them *)
+Theorem C05_ec_set_fits : forall arg, (length arg < excap)%nat -> exists r, ec_set_bufs arg = Ok r.
+Proof. exact ec_set_bufs_spec. Qed.
+Print Assumptions C05_ec_set_fits.
+
+(* cutword and ex_plus into any buffer with more room than what is left of the source *)
+Theorem C05_cutword_fits : forall s i w, (i <= length s)%nat -> (length s < i + wroom w)%nat ->
+  exists i' w', cutword s i w = Ok (i', w') /\ (i <= i')%nat /\ (i' <= length s)%nat /\
+                (wlen w' <= wlen w + (i' - i) + 1)%nat /\ wcap w' = wcap w.
+Proof. exact cutword_spec. Qed.
+Print Assumptions C05_cutword_fits.
+
+Theorem C05_ex_plus_fits : forall s i w, (i <= length s)%nat -> (length s < i + wroom w)%nat ->
+  exists i' w', ex_plus s i w = Ok (i', w') /\ (i <= i')%nat /\ (i' <= length s)%nat /\
+                (wlen w' <= wlen w + (i' - i) + 1)%nat.
+Proof. exact ex_plus_spec. Qed.
+Print Assumptions C05_ex_plus_fits.
+
+(* non-vacuity: the hypotheses are satisfiable and the models compute on a literal command line *)
+Example C05_nonvacuous :
+  let ln := [49; 44; 50; 115; 47; 97; 47; 98; 47; 124; 112]%N in      (* 1,2s/a/b/|p *)
+  (Z.of_nat (length ln) < EXLEN)%Z /\ nonul ln /\
+  (match ex_exec ln with Parsed (Ok [p1; p2]) => p_loc p1 = [49; 44; 50]%N /\ p_cmd p1 = [115]%N /\ p_cmd p2 = [112]%N | _ => False end) /\
+  Forall op_ok [TPush 5000; TRead None; TCmd; TRead (Some 1)]%Z /\
+  ex_region 5 (ex_lineno 5 (fun _ => None) (fun _ _ i => (None, i))) [50; 44; 52]%N 0 = Ok (ROk 1 4, 0%Z).
+Proof.
+  cbv zeta. split; [reflexivity|]. split.
+  { repeat constructor. }
+  split; [vm_compute; repeat split; reflexivity|]. split; [|reflexivity].
+  repeat constructor; cbn; try exact I; discriminate.
+Qed.
+
+(* the model has teeth: without the guard a line of EXLEN address bytes overflows loc[EXLEN]; without
+   the clip a push overflows ibuf *)
+Example C05_guard_needed : ex_exec_unguarded (repeat 49%N excap) = OobWr.
+Proof. vm_compute. reflexivity. Qed.
+Example C05_clip_needed : t_step_noclip t_init (TPush (IBUFSZ + 1)) = OobWr.
+Proof. vm_compute. reflexivity. Qed.
